@@ -223,6 +223,99 @@ def unit_canary():
     return Unit('canary/nearest-left-on-ties', run, kind='canary', expect='refuted')
 
 
+DOPS_ = 'odl.discr.discr_ops:'
+
+
+def unit_resampling(schemes):
+    """Resampling hands its per-axis interpolation schemes on unchanged: the `interp` argument given to per_axis_interpolator by `_call` and to the Resampling built
+    by `inverse` / `adjoint`, normalised by the real `_normalize_interp`, is the operator's `interp_byaxis` - for every combination of schemes (mixed ones included);
+    the interpolator is built from the input x and the coordinate vectors of the DOMAIN and sampled on the mesh of the RANGE."""
+    ndim = len(schemes)
+
+    def run(ctx):
+        I = ctx.I
+
+        def path(st):
+            fr = ip.Frame(st)
+            calls = {}
+
+            class Grid(object):
+                def __init__(self, tag):
+                    self.tag = tag
+
+                def pv_getattr(self, I_, fr_, name):
+                    if name == 'coord_vectors':
+                        return ('coord_vectors', self.tag)
+                    raise Unsupported('grid.%s' % name)
+
+            class Space(object):
+                def __init__(self, tag):
+                    self.tag = tag
+
+                def pv_getattr(self, I_, fr_, name):
+                    if name == 'grid':
+                        return Grid(self.tag)
+                    if name == 'meshgrid':
+                        return ('meshgrid', self.tag)
+                    if name == 'ndim':
+                        return ndim
+                    raise Unsupported('space.%s' % name)
+            dom, ran = Space('domain'), Space('range')
+            st.cuts[DOPS_ + 'per_axis_interpolator'] = lambda I_, fr_, x, cv, interp, *a, **k: calls.setdefault('interp', (x, cv, interp)) and ('interpolator',)
+            st.cuts[DU + 'per_axis_interpolator'] = st.cuts[DOPS_ + 'per_axis_interpolator']
+            st.cuts[DOPS_ + 'point_collocation'] = lambda I_, fr_, f, pts, out=None, **k: calls.setdefault('colloc', (f, pts, out)) and ('sampled',)
+            st.cuts[DU + 'point_collocation'] = st.cuts[DOPS_ + 'point_collocation']
+            made = []
+
+            class NullCtx(object):
+                def pv_enter(self, I_, fr_):
+                    return None
+
+                def pv_exit(self, I_, fr_, exc):
+                    return None
+            st.ext_cuts = dict(getattr(st, 'ext_cuts', None) or {})
+            st.ext_cuts['contextlib.nullcontext'] = lambda *a, **k: NullCtx()
+
+            def ctor(I_, fr_, self, *a, **kw):
+                self.fields['ctor'] = (a, dict(kw))
+                made.append(self)
+            st.cuts[DOPS_ + 'Resampling.__init__'] = ctor
+            from contracts import oplib
+            st.cuts.update(oplib.operator_cuts())
+            op = ip.Obj(I.get_class(DOPS_ + 'Resampling'))
+            op.fields.update({'_Operator__domain': dom, '_Operator__range': ran, '_Operator__is_linear': True, '_Resampling__interp_byaxis': tuple(schemes)})
+            x = ('x',)
+            f = I.class_entry_value(op.cls, '_call', op.cls.lookup('_call')[1])
+            norm = I.get_func(DU + '_normalize_interp')
+            try:
+                I.call(f, [op, x], {}, fr)
+                inv = I._getattr(op, 'inverse', fr)
+                adj = I._getattr(op, 'adjoint', fr)
+                n_call = I.call(norm, [calls['interp'][2], ndim], {}, fr) if 'interp' in calls else None
+                outs = []
+                for o in (inv, adj):
+                    a, kw = o.fields['ctor'] if isinstance(o, ip.Obj) and 'ctor' in o.fields else ((), {})
+                    args = dict(zip(('domain', 'range', 'interp'), a))
+                    args.update(kw)
+                    outs.append((args, I.call(norm, [args.get('interp'), ndim], {}, fr) if 'interp' in args else None))
+            except ip.PyRaise as e:
+                return ('raise', e.exc)
+            return ('ok', dict(calls=calls, n_call=n_call, outs=outs, dom=dom, ran=ran, x=x))
+        info = {'schemes': list(schemes)}
+        for st, (status, r) in ctx.explore(path):
+            if status == 'raise':
+                ctx.fail(st, 'no_raise', 'raises %s' % lib.exc_desc(r), info)
+                continue
+            c = r['calls']
+            ctx.prove(st, '_call: interpolator of x on the coordinate vectors of the domain', 'interp' in c and c['interp'][0] is r['x'] and c['interp'][1] == ('coord_vectors', 'domain'), info)
+            ctx.prove(st, '_call: the schemes handed to per_axis_interpolator are the per-axis schemes of the operator', r['n_call'] is not None and tuple(r['n_call']) == tuple(schemes), dict(info, got=repr(c.get('interp', (None, None, None))[2])))
+            ctx.prove(st, '_call: sampled on the mesh of the range', 'colloc' in c and c['colloc'][1] == ('meshgrid', 'range'), info)
+            for nm, (args, nrm) in zip(('inverse', 'adjoint'), r['outs']):
+                ctx.prove(st, '%s: Resampling in the opposite direction with the same per-axis schemes' % nm,
+                          args.get('domain') is r['ran'] and args.get('range') is r['dom'] and nrm is not None and tuple(nrm) == tuple(schemes), dict(info, got=repr(args.get('interp'))))
+    return Unit('resampling/%s' % '-'.join(schemes), run, funcs=[DOPS_ + 'Resampling._call', DOPS_ + 'Resampling.interp', DOPS_ + 'Resampling.inverse', DU + '_normalize_interp'], config={'schemes': list(schemes)})
+
+
 def unit_sampling_bounded(kind, ndim, tier):
     """BOUNDED stand-in (labelled bounded, never counted as proved) - see contracts/replay_c15.py: space.element(f) / point_collocation(..., out=) against the
     callable evaluated point by point, for each kind of callable, each floating dtype, and every two-use history of the same callable object."""
@@ -243,7 +336,7 @@ def unit_sampling_bounded(kind, ndim, tier):
 
 
 def replay(ob):
-    if ob.get('unit', '').startswith('sampling/'):
+    if ob.get('unit', '').startswith('sampling/') or ob.get('unit', '').startswith('resampling/'):
         from contracts import replay_c15
         return replay_c15.replay(ob)
     return {'reproduced': False, 'detail': 'no native concretisation for this obligation kind'}
@@ -259,6 +352,9 @@ def units(tier, seed):
         us.append(unit_interp(2, kinds))
     us.append(unit_affine(1))
     us.append(unit_affine(2))
+    for nd in (1, 2, 3):
+        for schemes in itertools.product(('nearest', 'linear'), repeat=nd):
+            us.append(unit_resampling(schemes))
     from contracts import replay_c15
     for kind in replay_c15.KINDS:
         for ndim in (1, 2):
